@@ -905,8 +905,13 @@ class VM:
                 keys = [str(i) for i in range(len(obj._elements))]
                 # Also include any non-numeric properties
                 keys.extend(obj.keys())
+            elif isinstance(obj, JSTypedArray):
+                keys = [str(i) for i in range(obj.length)] + obj.keys()
             elif isinstance(obj, JSObject):
                 keys = obj.keys()
+            elif isinstance(obj, str):
+                # The characters of a string are its enumerable properties
+                keys = [str(i) for i in range(len(obj))]
             else:
                 keys = []
             self.stack.append(ForInIterator(keys))
